@@ -14,7 +14,7 @@
 From RB Require Import Base.Prelude Sig.Types Sig.Parser Sig.ParserProofs Sig.Validator Sig.ValidatorProofs Sig.Iter
   Wire.Value Wire.SpecEnc Wire.Marshal Wire.Decode Wire.Unmarshal Wire.Relabel Wire.Ops Wire.DecodeSoundLemmas Wire.DecodeTotal
   Wire.HasSig Wire.HasSigProofs Wire.Body Wire.ParserTotal Wire.Bytes Wire.Align Wire.Derive Wire.Enums Wire.EnumsTotal
-  Wire.Limits Wire.LimitsProofs Wire.LimitsBounds.
+  Wire.Limits Wire.LimitsProofs Wire.LimitsBounds Wire.Steps Wire.StepsProofs.
 
 (* raw validation: any bytes, any offset inside the buffer, any (well-formed) type, both byte orders *)
 Theorem C04_total_validate : forall be off buf t, wf t = true -> off <= len buf ->
@@ -126,3 +126,33 @@ Theorem C04_bounds_partial : forall be vf t c v c', uoff c <= len (ubuf c) -> un
   vcount v <= uoff c' - uoff c /\ uoff c' <= len (ubuf c) /\ (vdepth v = 0 \/ udepth c + vdepth v <= MAX_DEPTH).
 Proof. exact param_decoder_bounds. Qed.
 Print Assumptions C04_bounds_partial.
+
+(* steps of the raw validator, EVERY outcome (round 4). [validate_marshalled_s] (Wire/Steps.v) is [validate_marshalled] clause by
+   clause with a counter: 1 per call of validate_marshalled_at_depth, 1 per round of an element loop or of the field loop of a
+   struct, 1 per dict key call; the non-recursive helpers are part of the step that calls them. Its first component is the
+   uninstrumented model (the one the correspondence check runs against the code): *)
+Theorem C04_steps_validate_proj : forall be off buf t,
+  fst (validate_marshalled_s be off buf t) = validate_marshalled be off buf t.
+Proof. exact validate_marshalled_s_proj. Qed.
+Print Assumptions C04_steps_validate_proj.
+
+(* ... and whatever the bytes are and however the run ends it makes at most 129 steps per byte between the start offset and the
+   end of the buffer, plus 129; an accepting run at most 129 steps per byte it consumed. No term for the size of the type:
+   a run fails at the first field that does not fit, and below the nesting limit of 64 every level costs 2 steps
+   (129 = 2 * 64 + 1). Both constants are reached (Wire/StepsExamples.v: sx_tight_ok, sx_tight_err). *)
+Theorem C04_steps_validate_bound : forall be off buf t, wf t = true -> off <= len buf ->
+  snd (validate_marshalled_s be off buf t) <= 129 * (len buf - off) + 129
+  /\ (forall n, fst (validate_marshalled_s be off buf t) = Ok n ->
+        snd (validate_marshalled_s be off buf t) <= 129 * n /\ n <= len buf - off).
+Proof. exact validate_marshalled_s_bound. Qed.
+Print Assumptions C04_steps_validate_bound.
+
+(* the same at any nesting depth d (validate_marshalled_at_depth, called by the typed Variant decoder): the weight of a byte is
+   step_weight d = 2 * (64 - d) + 1 *)
+Theorem C04_steps_validate_depth : forall be vf t d off buf,
+  wf t = true -> off <= len buf -> (1 <= vf)%nat -> 65 <= N.of_nat vf + d ->
+  fst (validate_s vf be d off buf t) = validate vf be d off buf t
+  /\ snd (validate_s vf be d off buf t) <= step_weight d * (len buf - off) + step_weight d
+  /\ (forall n, fst (validate_s vf be d off buf t) = Ok n -> snd (validate_s vf be d off buf t) <= step_weight d * n /\ n <= len buf - off).
+Proof. intros be vf t d off buf Hw Ho H1 H2. split; [apply validate_s_proj|exact (validate_s_bound be vf t d off buf Hw Ho H1 H2)]. Qed.
+Print Assumptions C04_steps_validate_depth.
